@@ -1,8 +1,8 @@
 (** C17, Midline part: the class-independent theorems instantiated for models.Midline in
     general (statements and proofs in theories/NamedMidline.v; they rest on the C10 name
-    list [mid_names_nodup] of theories/ParamsMidline.v).  The keyword-resolution theorems
-    ([set_named_spec] and its corollaries) are NOT proved for Midline: its set_params is
-    tied to the code by the correspondence check only. *)
+    list [mid_names_nodup] of theories/ParamsMidline.v).  The keyword-resolution theorems for
+    Midline are in C17_midline_more.v (literal subsets) and C17_midline_global.v (global names,
+    when present); beyond them its set_params is tied to the code by the correspondence check. *)
 From LymphModel Require Import Base States Linalg Graph Transition Observation Dist Unilateral Models Params
   ParamsStatements ParamsMidline Named NamedProofs NamedMidline.
 
